@@ -110,11 +110,11 @@ class RF24:
         self.ce_pin = 0
         self._reg_write(0, (self._reg_read(0) & 0xFC) | (2 + bool(is_rx)))
         if is_rx:
-            self.ce_pin = 1
             if self._pipe0_read_addr is not None:
                 self._reg_write_bytes(0x0A, self._pipe0_read_addr)
             else:
                 self.close_rx_pipe(0)
+            self.ce_pin = 1
         else:
             if self._reg_read(0x1D) & 6 == 6:
                 self.flush_tx()
